@@ -359,7 +359,9 @@ def _dedupe(fields):
 
 def _key(ktype, v, rng=None):
     if ktype == "string":
-        return '"K%d"' % v
+        # a key is free text between quotes: a percent sign is an ordinary character in it (decided by the key's number, not by a
+        # draw, so that the rest of the stream is unchanged)
+        return ('"%%K%d"' % v) if v % 8 == 3 else ('"K%d%%"' % v) if v % 8 == 7 else ('"K%d"' % v)
     # one key in twelve is written with leading zeros: numbers are decimal however they are padded
     return ("0%d" % v if v % 10 < 8 else "00%d" % v) if (rng is not None and rng.random() < 0.08) else str(v)
 
